@@ -53,6 +53,10 @@ Definition n_j : str := [106]%N.   (* j *)
 Definition n_id : str := [105; 100]%N.   (* id *)
 Definition n_run : str := [114; 117; 110]%N.   (* run *)
 Definition n_z : str := [122]%N.   (* z *)
+Definition n_g1 : str := [103; 49]%N.   (* g1 *)
+Definition n_lim : str := [108; 105; 109]%N.   (* lim *)
+Definition n_q : str := [113]%N.   (* q *)
+Definition n_none : str := [110; 111; 110; 101]%N.   (* none *)
 
 Definition nv_c15 : source :=
   [ SAssign n_x (EInt 10);
@@ -162,6 +166,26 @@ Definition nv_loops : source :=
     SPrint (call n_run [(EInt 4)]);
     SPrint (EVar n_t) ].
 
+Definition nv_bounds : source :=
+  [ SAssign n_t (EInt 0);
+    SAssign n_g1 (EInt 3);
+    SAssign n_lim (EFn [n_n] [SModify n_t (EBin BAdd (EVar n_t) (EInt 1));
+      SReturn (Some (EVar n_n))]);
+    SAssign n_run (EFn [n_n] [SAssign n_acc (EInt 0);
+      SFrom (EInt 0) (call n_lim [(EVar n_n)]) false None (Some n_j) false [SOpAssign n_acc BAdd (EVar n_j)];
+      SFrom (EInt 1) (call n_lim [(EInt 2)]) true (Some (EBin BAdd (EBin BMul (EVar n_g1) (EInt 0)) (EInt 2))) (Some n_q) false [SAssign n_acc (EBin BAdd (EVar n_acc) (EVar n_q))];
+      SReturn (Some (ENeg (call n_lim [(EVar n_acc)])))]);
+    SPrint (call n_run [(EInt 3)]);
+    SPrint (EVar n_t) ].
+
+Definition nv_kn : source :=
+  [ SAssign n_t (EInt 0);
+    SAssign n_f (EFn [n_n] [SIf (EBin BGt (EVar n_n) (EInt 0)) [SModify n_t (EVar n_n); SReturn (Some (EVar n_n))];
+      SPrint (EStr n_none)]);
+    SExpr (call n_f [(EInt 1)]);
+    SExpr (call n_f [(EInt 0)]);
+    SPrint (EVar n_t) ].
+
 (* operands left to right, once; && / || skip the call on the right when the left operand decides; x is read when its
    operand is evaluated (before a later sibling modifies it); self(..) in `rec`: 31 lines *)
 Example C15_nv_order_program :
@@ -206,4 +230,19 @@ Example C01_nv_loops_program :
   in_fragment2 nvp nv_loops = true /\ in_fragment nvp nv_loops = true /\
   vm_out nv_loops 5000 = (fst (run 5000 nv_loops), Done) /\ snd (run 5000 nv_loops) = RODone /\
   fst (run 5000 nv_loops) = [[49; 54; 51]; [52]]%N.
+Proof. vm_compute. repeat split. Qed.
+
+(* calls in the UPPER bound of loops with a NAMED counter (the VM binds the counter before it evaluates the bound; the callee
+   writes through a captured variable), a step that reads a captured variable of the function, unary minus over a call *)
+Example C01_nv_bounds_program :
+  in_fragment2 nvp nv_bounds = true /\ in_fragment nvp nv_bounds = true /\ in_fragment1 nvp nv_bounds = false /\
+  vm_out nv_bounds 5000 = (fst (run 5000 nv_bounds), Done) /\ snd (run 5000 nv_bounds) = RODone /\
+  fst (run 5000 nv_bounds) = [[45; 52]; [51]]%N.
+Proof. vm_compute. repeat split. Qed.
+
+(* a function that returns data on one path and no value on the other, called in statement position *)
+Example C01_nv_maybe_value_program :
+  in_fragment2 nvp nv_kn = true /\ in_fragment1 nvp nv_kn = false /\
+  vm_out nv_kn 5000 = (fst (run 5000 nv_kn), Done) /\ snd (run 5000 nv_kn) = RODone /\
+  fst (run 5000 nv_kn) = [[110; 111; 110; 101]; [49]]%N.
 Proof. vm_compute. repeat split. Qed.
